@@ -33,7 +33,7 @@ from typing import Any, Dict, List, Optional, Tuple
 from core import Case, REPO
 
 PID = "C07"
-LEAN_MODULES = ["KrroodVerif.Props.C07"]
+LEAN_MODULES = ["KrroodVerif.Props.C07", "KrroodVerif.Props.C07Table"]
 THEOREMS = [
     "KrroodVerif.SqlTr.C07_preserves_partial",
     "KrroodVerif.SqlTr.C07_the_partial",
@@ -45,7 +45,70 @@ THEOREMS = [
     "KrroodVerif.SqlTr.C07_cex_set_of_escapes",
     "KrroodVerif.SqlTr.C07_cex_eq_join_under_or",
     "KrroodVerif.SqlTr.C07_cex_like_substring",
+    # generic in the evaluation of WHERE conditions / in the operator table (second tie, Props/C07Table.lean)
+    "KrroodVerif.SqlTr.C07_preserves_with",
+    "KrroodVerif.SqlTr.evalSql_sem",
+    "KrroodVerif.SqlTr.evalSqlT_sem",
+    "KrroodVerif.SqlTr.C07_table_preserves",
+    "KrroodVerif.SqlTr.C07_table_the",
+    "KrroodVerif.SqlTr.C07_opTable_ok",
+    "KrroodVerif.SqlTr.cmpT_opTable",
+    "KrroodVerif.SqlTr.memT_opTable",
+    "KrroodVerif.SqlTr.subT_opTable",
+    "KrroodVerif.SqlTr.evalSqlT_opTable",
+    "KrroodVerif.SqlTr.C07_table_cex_le_as_lt",
+    "KrroodVerif.SqlTr.C07_table_cex_legacy_ne",
+    "KrroodVerif.SqlTr.C07_table_cex_legacy_in",
+    "KrroodVerif.SqlTr.C07_table_cex_like",
+    "KrroodVerif.SqlTr.C07_dispatch_rejects",
+    "KrroodVerif.SqlTr.C07_operand_rejects",
+    "KrroodVerif.SqlTr.C07_query_rejects",
 ]
+TRANSLATED = ["KrroodVerif.SqlTr.Translated.C07_opTable_translated_eq_model",
+              "KrroodVerif.SqlTr.Translated.C07_dispatch_translated_eq_model",
+              "KrroodVerif.SqlTr.Translated.C07_translated_table_ok",
+              "KrroodVerif.SqlTr.Translated.C07_translated_preserves"]
+
+
+def extra_obligations():
+    """Second tie: regenerate the operator / dispatch / rejection tables of `eql_interface.py` from /repo's CURRENT source
+    (Python ast) and have the kernel re-check (1) that they equal the model's tables (for which `cmpT_opTable`,
+    `memT_opTable`, `subT_opTable`, `C07_dispatch_rejects` … prove that the hand-written model IS their interpretation),
+    (2) `tableOk` of the regenerated operator table (by `decide`) and hence, by `C07_table_preserves`, the property for the
+    translation with that table.  The four obligations are elaborated one by one, so that e.g. a table that differs from
+    the model's but still passes `tableOk` is reported as exactly that."""
+    import re
+    import subprocess
+    import core
+    from translate.c07_translate import generate as gen, TranslationError
+    try:
+        text = gen(core.REPO)
+    except (TranslationError, SyntaxError, OSError, RecursionError) as e:
+        return [{"name": n, "ok": False, "detail": f"translator rejected the source: {e}"} for n in TRANSLATED]
+    tmp = core.LEAN_DIR / ".lake" / "audit"
+    tmp.mkdir(parents=True, exist_ok=True)
+    f = tmp / f"C07Translated_{os.getpid()}.lean"
+    f.write_text(text + "".join(f"#print axioms {n}\n" for n in TRANSLATED))
+    try:
+        p = subprocess.run(["lake", "env", "lean", str(f)], cwd=str(core.LEAN_DIR), capture_output=True, text=True, timeout=600)
+    finally:
+        try:
+            f.unlink()
+        except OSError:
+            pass
+    out = " ".join(((p.stdout or "") + (p.stderr or "")).split())
+    tables = text[text.find("def opTable"):text.find("/-- the operator logic")]
+    res = []
+    for n in TRANSLATED:
+        m = re.search(r"'" + re.escape(n) + r"' depends on axioms: \[([^\]]*)\]", out)
+        none = re.search(r"'" + re.escape(n) + r"' does not depend on any axioms", out)
+        ax = [a.strip() for a in m.group(1).split(",")] if m else ([] if none else None)
+        # an obligation stands if ITS theorem elaborated with admissible axioms (lean goes on after a failed theorem)
+        ok = ax is not None and set(ax) <= core.ALLOWED_AXIOMS and "sorryAx" not in ax
+        res.append({"name": n, "ok": ok, "axioms": ax,
+                    "detail": "regenerated tables:\n" + tables + (p.stdout or "")[-1500:] + (p.stderr or "")[-800:]})
+    return res
+
 MODEL_FUNCTION = "SqlTr.translate / SqlTr.execSql / SqlTr.evalMem (Model/SqlTr.lean)"
 TRUSTED = [
     "Lean 4.33 kernel; axioms of each theorem listed under coverage.theorems",
